@@ -168,10 +168,61 @@ def _trace_value(body, op, depth=0, upvar=None):
     return None
 
 
+
+# ----------------------------------------------------------------------------- new closures under std combinators
+def closure_fp(body):
+    """Fingerprint of a closure body that survives renumbering of locals / line changes: statement and terminator kinds,
+    operators, aggregate kinds, constants and callee names in block order."""
+    import hashlib
+    parts = []
+    def opk(o):
+        if o is None:
+            return '-'
+        c = o.get('c')
+        if c is not None:
+            return 'c:%s' % (c.get('v') if 'v' in c else (c.get('s') or c.get('fn') or c.get('def') or ''))
+        pl = o.get('mv') or o.get('cp') or {}
+        return 'p:' + ''.join(('*' if e == '*' else (e.get('f') or e.get('d') or 'i') if isinstance(e, dict) else str(e)) for e in (pl.get('p') or []))
+    for blk in body['blocks']:
+        if blk.get('cleanup'):
+            continue
+        for st in blk['stmts']:
+            if st['k'] != 'assign':
+                continue
+            rv = st['rv']
+            k = rv['k']
+            if k == 'use':
+                parts.append('u(%s)' % opk(rv['op']))
+            elif k == 'bin':
+                parts.append('b%s(%s,%s)' % (rv['op'], opk(rv['a']), opk(rv['b'])))
+            elif k == 'agg':
+                parts.append('a%s:%s:%s' % (rv.get('agg'), rv.get('adt') or '', rv.get('variant') or ''))
+            else:
+                parts.append(k + (':' + str(rv.get('op')) if rv.get('op') and isinstance(rv.get('op'), str) else ''))
+        t = blk['term']
+        if t['k'] == 'call':
+            parts.append('call:%s' % (_callee(t)[0] or '?'))
+        else:
+            parts.append('t:' + t['k'])
+    return hashlib.sha1('|'.join(parts).encode()).hexdigest()[:16]
+
+
+COMBINATORS = re.compile(r'^(?:std::option::Option::<.*>::(map|and_then|map_or|map_or_else|unwrap_or_else|ok_or_else|is_some_and|is_none_or)|std::result::Result::<.*>::(map|map_err|and_then|unwrap_or_else|is_ok_and|is_err_and)|core::bool::<impl bool>::(then)|std::bool::<impl bool>::(then))$')
+
+
+def _adt(adt, variant, vi, fields):
+    return {'k': 'agg', 'agg': 'adt', 'adt': adt, 'variant': variant, 'vi': vi, 'names': [str(i) for i in range(len(fields))], 'fields': fields}
+
+
+def _down(l, adt, variant, vi):
+    return {'l': l, 'p': [{'d': variant, 'vi': vi}, {'f': '0', 'i': 0, 'adt': adt}]}
+
+
 class Inliner:
-    def __init__(self, raw, known):
+    def __init__(self, raw, known, known_fps=None):
         self.raw = raw
         self.known = known
+        self.known_fps = known_fps
         self.bodies = {}
         for b in raw['bodies']:
             if b['kind'] != 'Promoted' and b['path'] not in self.bodies:
@@ -373,7 +424,14 @@ class Inliner:
                     if rv['k'] == 'use' and rv['op'].get('c') is not None and isinstance(rv['op']['c'].get('v'), int):
                         val = {('int', rv['op']['c']['v'])}
                     elif rv['k'] == 'agg' and rv.get('agg') == 'adt' and isinstance(rv.get('vi'), int):
-                        val = {('var', rv.get('adt'), rv['vi'])}
+                        inner = None
+                        if len(rv.get('fields') or []) == 1:
+                            fl = _op_local(rv['fields'][0])
+                            if fl is not None:
+                                ds_ = [d_ for d_ in _defs_of(caller, fl) if boff <= d_[1] < boff + n]
+                                if len(ds_) == 1 and ds_[0][0] == 'assign' and ds_[0][2]['rv']['k'] == 'agg' and ds_[0][2]['rv'].get('agg') == 'adt' and isinstance(ds_[0][2]['rv'].get('vi'), int):
+                                    inner = ('var', ds_[0][2]['rv'].get('adt'), ds_[0][2]['rv']['vi'])
+                        val = {('var', rv.get('adt'), rv['vi'], inner) if inner else ('var', rv.get('adt'), rv['vi'])}
                     else:
                         val = {'?'}
             t_ = caller['blocks'][bi]['term']
@@ -444,6 +502,46 @@ class Inliner:
                             work.append((q, [pi] + chain))
         return sites
 
+    def thread_payload(self, caller, start, branch_dest, inner):
+        """From the Continue target of a `?`: follow straight-line blocks to the switch on the discriminant of the unwrapped
+        value; returns a new block that replays those statements and jumps to the target of the known variant."""
+        alias = set()
+        stmts = []
+        bi = start
+        for _ in range(6):
+            blk = caller['blocks'][bi]
+            for st in blk['stmts']:
+                stmts.append(st)
+                if st['k'] != 'assign' or st['lhs'].get('p'):
+                    continue
+                rv = st['rv']
+                if rv['k'] == 'use':
+                    pl = rv['op'].get('mv') or rv['op'].get('cp')
+                    if pl is None:
+                        continue
+                    proj = [e for e in (pl.get('p') or []) if e != '*']
+                    if pl['l'] == branch_dest and any(isinstance(e, dict) and e.get('d') == 'Continue' for e in proj):
+                        alias.add(st['lhs']['l'])
+                    elif pl['l'] in alias and not proj:
+                        alias.add(st['lhs']['l'])
+            t_ = blk['term']
+            if t_['k'] == 'switch':
+                dl = _op_local(t_['discr'])
+                ok = any(st['k'] == 'assign' and st['lhs']['l'] == dl and st['rv']['k'] == 'discr' and st['rv']['place']['l'] in alias and not [e for e in (st['rv']['place'].get('p') or []) if e != '*'] for st in blk['stmts'])
+                if not ok or inner[0] != 'var':
+                    return None
+                tg = dict((v_, b_) for v_, b_ in t_['targets'])
+                nb = {'cleanup': False, 'stmts': copy.deepcopy(stmts), 'term': {'k': 'goto', 'target': tg.get(inner[2], t_['otherwise']), 'threaded': True}}
+                caller['blocks'].append(nb)
+                return len(caller['blocks']) - 1
+            if t_['k'] in ('goto', 'drop') and isinstance(t_.get('target'), int):
+                if t_['k'] == 'drop':
+                    return None  # keep it simple: do not replicate drops here
+                bi = t_['target']
+                continue
+            return None
+        return None
+
     def thread_returns(self, caller, boff, n, ret_slot, dest, cont):
         """Jump threading for predicate helpers: when a spliced helper returns a constant (`true` / `false`, a known enum
         variant) on a branch and the caller immediately branches on the returned value (or applies `?` to it), that branch
@@ -494,6 +592,11 @@ class Inliner:
                 continue
             tgt = targets.get(val, otherwise)
             rb = caller['blocks'][ri]
+            if mode == 'try' and len(v) > 3 and v[3] and val == 0:
+                # `let Some(x) = helper(..)? else {..}`: the payload's variant is known as well - continue past that test too
+                t2 = self.thread_payload(caller, tgt, tt['dest']['l'], v[3])
+                if t2 is not None:
+                    tgt = t2
             if mode == 'try':
                 n2 = {'cleanup': False, 'stmts': copy.deepcopy(sw['stmts']), 'term': {'k': 'goto', 'target': tgt, 'threaded': True}, 'inl': rb.get('inl')}
                 caller['blocks'].append(n2)
@@ -525,6 +628,126 @@ class Inliner:
                 if 'targets' in lt:
                     lt['targets'] = [[v_, (nxt if b_ == first_old else b_)] for v_, b_ in lt['targets']]
 
+
+    # ------------------------------------------------------------------ std combinators over new closures
+    def expand_combinators(self, body, known_fps):
+        """`flag.then(|| ..)`, `opt.map(|x| ..)`, `res.map_err(|e| ..)`, ... whose closure does not exist on the pinned tree
+        (fingerprint unknown: newly written, or edited) are rewritten into the explicit branch they stand for, with the
+        closure called directly in the taken branch (it is then spliced like a helper). The if-let / match form and the
+        combinator form of the same code become the same control flow for the rules. Closures that exist unchanged on the
+        pinned tree stay as they are (the rules were written against them)."""
+        n = 0
+        for bi in range(len(body['blocks'])):
+            blk = body['blocks'][bi]
+            t = blk['term']
+            if t['k'] != 'call' or t.get('target') is None or t['dest'].get('p'):
+                continue
+            c = (t.get('func') or {}).get('c') or {}
+            m = COMBINATORS.match(c.get('fn') or '')
+            if not m:
+                continue
+            kind = [g for g in m.groups() if g][0]
+            recv = 'option' if 'option::Option' in c['fn'] else ('result' if 'result::Result' in c['fn'] else 'bool')
+            args = t['args']
+            # closure operands
+            clos = []
+            for a in args[1:]:
+                v = _trace_value(body, a, 0, self.upvar_value)
+                clos.append((a, v))
+            fns = [(a, v) for a, v in clos if v and v[0] == 'closure' and v[1] in self.bodies]
+            if not fns or any(closure_fp(self.bodies[v[1]]) in known_fps for a, v in fns):
+                continue
+            s_loc = _op_local(args[0])
+            if s_loc is None:
+                continue
+            src = {k: t[k] for k in ('file', 'ln') if k in t}
+            dest = t['dest']['l']
+            T = t['target']
+            base = len(caller_blocks := body['blocks'])
+            def newlocal(ty='?'):
+                body['locals'].append({'ty': ty})
+                return len(body['locals']) - 1
+            def block(stmts, term):
+                body['blocks'].append({'cleanup': False, 'stmts': stmts, 'term': dict(term, **src), 'inl_region': True})
+                return len(body['blocks']) - 1
+            def assign(l, rv):
+                return dict({'k': 'assign', 'lhs': {'l': l}, 'rv': rv}, **src)
+            def call_closure(fop, fv, argops, then_stmts_fn):
+                """blocks: call X(fop, argops..) -> r ; then_stmts_fn(r) ; goto T. returns entry block index"""
+                r = newlocal('?')
+                after = block(then_stmts_fn(r), {'k': 'goto', 'target': T})
+                fc = {'ty': 'closure call', 'fn': fv[1], 'local': True, 'args': [], 'res': fv[1], 'res_local': True, 'res_kind': 'closure'}
+                return block([], {'k': 'call', 'func': {'c': fc}, 'args': [fop] + argops, 'dest': {'l': r}, 'target': after, 'expanded': True})
+            OPT, RES = 'std::option::Option', 'std::result::Result'
+            entry_none = entry_some = None
+            if recv == 'bool' and kind == 'then':
+                fop, fv = fns[0]
+                bn = block([assign(dest, _adt(OPT, 'None', 0, []))], {'k': 'goto', 'target': T})
+                bs = call_closure(fop, fv, [], lambda r: [assign(dest, _adt(OPT, 'Some', 1, [{'mv': {'l': r}}]))])
+                blk['term'] = dict({'k': 'switch', 'discr': args[0], 'targets': [[0, bn]], 'otherwise': bs}, **src)
+                n += 1
+                continue
+            d = newlocal('isize')
+            v = newlocal('?')
+            if recv == 'option':
+                some_v = {'mv': _down(s_loc, OPT, 'Some', 1)}
+                take = [assign(v, {'k': 'use', 'op': some_v})]
+                fop, fv = fns[-1]
+                if kind == 'map':
+                    bn = block([assign(dest, _adt(OPT, 'None', 0, []))], {'k': 'goto', 'target': T})
+                    bs_call = call_closure(fop, fv, [{'mv': {'l': v}}], lambda r: [assign(dest, _adt(OPT, 'Some', 1, [{'mv': {'l': r}}]))])
+                elif kind == 'and_then':
+                    bn = block([assign(dest, _adt(OPT, 'None', 0, []))], {'k': 'goto', 'target': T})
+                    bs_call = call_closure(fop, fv, [{'mv': {'l': v}}], lambda r: [assign(dest, {'k': 'use', 'op': {'mv': {'l': r}}})])
+                elif kind == 'map_or' and len(args) == 3:
+                    bn = block([assign(dest, {'k': 'use', 'op': args[1]})], {'k': 'goto', 'target': T})
+                    bs_call = call_closure(fop, fv, [{'mv': {'l': v}}], lambda r: [assign(dest, {'k': 'use', 'op': {'mv': {'l': r}}})])
+                elif kind == 'map_or_else' and len(fns) == 2:
+                    bn = call_closure(fns[0][0], fns[0][1], [], lambda r: [assign(dest, {'k': 'use', 'op': {'mv': {'l': r}}})])
+                    bs_call = call_closure(fop, fv, [{'mv': {'l': v}}], lambda r: [assign(dest, {'k': 'use', 'op': {'mv': {'l': r}}})])
+                elif kind == 'unwrap_or_else':
+                    bn = call_closure(fop, fv, [], lambda r: [assign(dest, {'k': 'use', 'op': {'mv': {'l': r}}})])
+                    bs_call = block([assign(dest, {'k': 'use', 'op': {'mv': {'l': v}}})], {'k': 'goto', 'target': T})
+                elif kind == 'ok_or_else':
+                    bn = call_closure(fop, fv, [], lambda r: [assign(dest, _adt(RES, 'Err', 1, [{'mv': {'l': r}}]))])
+                    bs_call = block([assign(dest, _adt(RES, 'Ok', 0, [{'mv': {'l': v}}]))], {'k': 'goto', 'target': T})
+                elif kind in ('is_some_and', 'is_none_or'):
+                    cst = {'c': {'ty': 'bool', 'v': 0 if kind == 'is_some_and' else 1}}
+                    bn = block([assign(dest, {'k': 'use', 'op': cst})], {'k': 'goto', 'target': T})
+                    bs_call = call_closure(fop, fv, [{'mv': {'l': v}}], lambda r: [assign(dest, {'k': 'use', 'op': {'mv': {'l': r}}})])
+                else:
+                    continue
+                bs = block(take, {'k': 'goto', 'target': bs_call})
+                blk['stmts'].append(assign(d, {'k': 'discr', 'place': {'l': s_loc}, 'ty': OPT}))
+                blk['term'] = dict({'k': 'switch', 'discr': {'mv': {'l': d}}, 'targets': [[0, bn], [1, bs]], 'otherwise': bs}, **src)
+                n += 1
+            else:
+                ok_v = {'mv': _down(s_loc, RES, 'Ok', 0)}
+                err_v = {'mv': _down(s_loc, RES, 'Err', 1)}
+                fop, fv = fns[-1]
+                if kind == 'map':
+                    bok_call = call_closure(fop, fv, [{'mv': {'l': v}}], lambda r: [assign(dest, _adt(RES, 'Ok', 0, [{'mv': {'l': r}}]))])
+                    bok = block([assign(v, {'k': 'use', 'op': ok_v})], {'k': 'goto', 'target': bok_call})
+                    berr = block([assign(v, {'k': 'use', 'op': err_v}), assign(dest, _adt(RES, 'Err', 1, [{'mv': {'l': v}}]))], {'k': 'goto', 'target': T})
+                elif kind == 'map_err':
+                    berr_call = call_closure(fop, fv, [{'mv': {'l': v}}], lambda r: [assign(dest, _adt(RES, 'Err', 1, [{'mv': {'l': r}}]))])
+                    berr = block([assign(v, {'k': 'use', 'op': err_v})], {'k': 'goto', 'target': berr_call})
+                    bok = block([assign(v, {'k': 'use', 'op': ok_v}), assign(dest, _adt(RES, 'Ok', 0, [{'mv': {'l': v}}]))], {'k': 'goto', 'target': T})
+                elif kind == 'and_then':
+                    bok_call = call_closure(fop, fv, [{'mv': {'l': v}}], lambda r: [assign(dest, {'k': 'use', 'op': {'mv': {'l': r}}})])
+                    bok = block([assign(v, {'k': 'use', 'op': ok_v})], {'k': 'goto', 'target': bok_call})
+                    berr = block([assign(v, {'k': 'use', 'op': err_v}), assign(dest, _adt(RES, 'Err', 1, [{'mv': {'l': v}}]))], {'k': 'goto', 'target': T})
+                elif kind == 'unwrap_or_else':
+                    berr_call = call_closure(fop, fv, [{'mv': {'l': v}}], lambda r: [assign(dest, {'k': 'use', 'op': {'mv': {'l': r}}})])
+                    berr = block([assign(v, {'k': 'use', 'op': err_v})], {'k': 'goto', 'target': berr_call})
+                    bok = block([assign(dest, {'k': 'use', 'op': ok_v})], {'k': 'goto', 'target': T})
+                else:
+                    continue
+                blk['stmts'].append(assign(d, {'k': 'discr', 'place': {'l': s_loc}, 'ty': RES}))
+                blk['term'] = dict({'k': 'switch', 'discr': {'mv': {'l': d}}, 'targets': [[0, bok], [1, berr]], 'otherwise': berr}, **src)
+                n += 1
+        return n
+
     # ------------------------------------------------------------------ driver per caller
     def process(self, caller):
         n = 0
@@ -546,7 +769,11 @@ class Inliner:
                 target = None
                 kind = 'fn'
                 force_args = None
-                if name and self.unknown(name):
+                if t.get('expanded') and name in self.bodies and not self.bodies[name].get('coroutine'):
+                    target = self.bodies[name]
+                    kind = 'closure'
+                    self.devirt[name] = self.devirt.get(name, 0) + 1
+                elif name and self.unknown(name):
                     target = self.bodies[name]
                     if target.get('coroutine'):
                         kind = 'poll'
@@ -608,7 +835,12 @@ class Inliner:
         return n
 
     def run(self):
-        if not self.unknown_tops:
+        fps = set(self.known_fps or [])
+        self.expanded = 0
+        if self.known_fps is not None:
+            for p, b in list(self.bodies.items()):
+                self.expanded += self.expand_combinators(b, fps)
+        if not self.unknown_tops and not self.expanded:
             return self
         callers = [b for p, b in list(self.bodies.items()) if not self.unknown(p)]
         total = 0
@@ -698,7 +930,8 @@ def apply(raw):
     known = load_known()
     if known is None:
         return None
-    inl = Inliner(raw, known).run()
-    if not inl.unknown_tops:
+    fps = json.load(open(KNOWN)).get('closure_fps')
+    inl = Inliner(raw, known, fps).run()
+    if not inl.unknown_tops and not getattr(inl, 'expanded', 0):
         return {'unknown': [], 'splices': 0}
-    return {'unknown': inl.unknown_tops, 'splices': getattr(inl, 'total', 0), 'dropped': getattr(inl, 'dropped', []), 'log': inl.log[:200]}
+    return {'unknown': inl.unknown_tops, 'expanded_combinators': getattr(inl, 'expanded', 0), 'splices': getattr(inl, 'total', 0), 'dropped': getattr(inl, 'dropped', []), 'log': inl.log[:200]}
